@@ -518,8 +518,10 @@ func (s *Sim) checkPodActions(v *recView) {
 				s.count("probe.update_delete")
 				if v.onDelete {
 					s.violate("C07", "C07.ondelete-restart", "delete", fmt.Sprintf("OnDelete strategy but pod %s (revision %s) was deleted for its revision", c.Name, podRevision(p)))
+					s.violate("C03", "C03.delete-unjustified", "outdated-under-ondelete", fmt.Sprintf("deleted live desired pod %s whose only defect is its revision %s, under OnDelete", c.Name, podRevision(p)))
 				} else if ord < v.part && v.hasRU {
 					s.violate("C07", "C07.below-partition", "delete", fmt.Sprintf("pod %s deleted for update below partition %d", c.Name, v.part))
+					s.violate("C03", "C03.delete-unjustified", "outdated-below-partition", fmt.Sprintf("deleted live desired pod %s whose only defect is its revision %s, below partition %d", c.Name, podRevision(p), v.part))
 				}
 			default:
 				a.class = "unjustified"
@@ -708,6 +710,14 @@ func (s *Sim) checkCreatedRevision(v *recView, c *APICall, ord int32) {
 	if t, ok := RevTemplate(rev); ok {
 		if msg := podMatchesTemplate(pod, t); msg != "" {
 			s.violate("C06", "C06.identity", "revision-label-untruthful", fmt.Sprintf("created pod %s labelled %s but %s", pod.Name, label, msg))
+			if v.rolling && v.hasRU {
+				// C07: "built from" the current / update revision means content, not only the label
+				side := "at-or-above-partition-content"
+				if ord < v.part {
+					side = "below-partition-content"
+				}
+				s.violate("C07", "C07.created-revision", side, fmt.Sprintf("pod %s (ordinal %d, partition %d) carries the label of revision %s but was not built from it: %s", pod.Name, ord, v.part, label, msg))
+			}
 		}
 	}
 	if !(v.rolling && v.hasRU) {
@@ -1005,6 +1015,11 @@ func (s *Sim) checkRevisions(v *recView) {
 	if upd == nil {
 		s.violate("C08", "C08.update-revision-mismatch", "not-stored", fmt.Sprintf("after a successful reconcile status.updateRevision=%q names no revision this reconcile saw", st.UpdateRevision))
 		return
+	}
+	for _, c := range rec.Calls[rec.CtlCallIdx:] {
+		if c.Kind == KRev && c.Verb == "delete" && c.Err == nil && c.Name == upd.Name {
+			s.violate("C08", "C08.update-revision-mismatch", "deleted-in-same-reconcile", fmt.Sprintf("the reconcile that left status.updateRevision=%s also deleted that revision", upd.Name))
+		}
 	}
 	if t, ok := RevTemplate(upd); !ok || t != v.tmpl {
 		disc := "content"
